@@ -82,7 +82,7 @@ func HarnessC02Definition() {
 
 	eng := &zzLiveEngine{zzEngine: zzEngine{s: s}, running: zz.Bool("controller.running")}
 	s.FaultAt = zz.Choose("fault.at", 7) - 1
-	s.FaultKind = 1 + zz.Choose("fault.kind", 2)
+	s.FaultKind = 1 + zz.Choose("fault.kind", 3)
 	r := NewReconciler(NewClientApplicator(s), WithControllerEngine(eng))
 	_, _ = r.Reconcile(context.Background(), reconcile.Request{NamespacedName: types.NamespacedName{Name: zzXRDName}})
 	if s.Faulted {
